@@ -53,5 +53,7 @@ func (ai ArrayItems) MarshalJSON() ([]byte, error) {
 	if length == 0 {
 		b.WriteString(`{}`)
 	}
-	return b.Bytes(), nil
+	// b goes back to the pool on return: hand out a copy, not its memory (another
+	// goroutine may get and overwrite the buffer before the caller has copied it).
+	return append([]byte(nil), b.Bytes()...), nil
 }
